@@ -354,7 +354,7 @@ impl Property for C08 {
     }
     fn cases(&self, tier: Tier) -> usize {
         let base = match tier {
-            Tier::Quick => 40_000,
+            Tier::Quick => 150_000,
             Tier::Thorough => 3_000_000,
         };
         if cfg!(debug_assertions) {
